@@ -129,6 +129,18 @@ def drain_discipline(ctx):
                   'the event of every removed entry is set',
                   f'`{src(st)}` takes request entries out of `{recv.attr}` and drops them: a caller whose request was still '
                   'queued is not woken up - it waits the full 10 s and gets TimeoutError instead of a prompt connection error', f)
+        # the peer (rx / tx thread) and the user may run disconnect at the same time: the other one can take the last entry between
+        # the emptiness test and this call - taking from the empty container has to be expected here
+        import queue
+        raises = {'popitem': KeyError, 'pop': KeyError, 'get': queue.Empty, 'get_nowait': queue.Empty}.get(c.func.attr)
+        if raises is not None and not (c.func.attr == 'pop' and len(c.args) >= 2):
+            from sa.lib import covering_handler
+            h = covering_handler(c, [raises], owner.module)
+            ctx.check(h is not None, f'{f.qualname}:taking from an emptied {recv.attr} is expected', c,
+                      f'`{src(c)}` lies in a try that catches {raises.__name__}',
+                      f'`{src(c)}` raises {raises.__name__} when a concurrent disconnect (the rx / tx thread notices the lost connection while the user '
+                      'shuts down) emptied the container after the loop test: the exception escapes from disconnect, the remaining containers are not drained '
+                      '- shutdown by both sides at once does not complete', f)
     if n < 3:
         raise AnchorMissing('drains of txq / pending / active_requests not found in disconnect', violation='frappy.client.SecopClient.disconnect:all three request containers are drained')
 
@@ -521,7 +533,7 @@ def caller_path_obligations(ctx):
     for t in cfg.nodes:
         if t.kind != 'test':
             continue
-        core, neg = _tp(t.ast)
+        core, neg = _tp(resolved(t.ast, g.node))
         if core.startswith(f'{e}[1].wait('):
             n += 1
             side, label = _side(cfg, t, False)            # wait() returned False: timed out
